@@ -85,6 +85,10 @@ pub struct UpdSpec {
     pub new_ts: Option<i64>,
     #[serde(default)]
     pub new_tags: Vec<String>,
+    /// may target a frame that already has a pending (uncommitted) update: two updates of the
+    /// same frame without a commit in between
+    #[serde(default)]
+    pub allow_busy: bool,
 }
 
 #[derive(Debug, Clone, Serialize, Deserialize, PartialEq)]
@@ -240,6 +244,7 @@ pub struct Stats {
     pub doctors: u32,
     pub vec_checks: u32,
     pub emb_killed: u32,
+    pub double_updates: u32,
 }
 
 pub struct Exec {
@@ -522,12 +527,34 @@ impl Exec {
                 Ok(true)
             }
             Op::Update(u) => {
-                let cands: Vec<usize> = self
+                let mut cands: Vec<usize> = self
                     .model
                     .targets()
                     .into_iter()
                     .filter(|&i| self.model.docs[i].role == FrameRole::Document)
                     .collect();
+                if u.allow_busy {
+                    // frames whose only pending op is an update are still active in the table
+                    let extra: Vec<usize> = self
+                        .model
+                        .pending
+                        .iter()
+                        .filter_map(|p| match p {
+                            POp::Insert(i) => self.model.docs[*i].supersedes,
+                            _ => None,
+                        })
+                        .filter(|&o| {
+                            o < self.model.materialised
+                                && self.model.docs[o].status == MStatus::Active
+                                && self.model.docs[o].frame_id.is_some()
+                                && !self.model.pending.iter().any(|p| matches!(p, POp::Tomb(t) if *t == o))
+                        })
+                        .collect();
+                    if !extra.is_empty() {
+                        self.stats.double_updates += 1;
+                        cands = extra;
+                    }
+                }
                 if cands.is_empty() {
                     self.stats.skipped_ops += 1;
                     return Ok(true);
